@@ -652,6 +652,10 @@ def check_bodies(run, tree, aspects=("layout", "values", "skip"), all_subsets=Fa
             cases.append((AMR, "amr", {k: ((k not in off), t) for k, (_, t) in amr_vars.items()}, L.AMR_BODY, {"ndim": Poly.const(3), "twotondim": Poly.const(8)}, False))
     for name, (cq, _) in MESH.items():
         cases.append((cq, name, hydro_vars, L.DOMAIN_HEADER + L.VAR_BODY, {"twotondim": Poly.const(8), "nvar": Poly.const(3)}, True))
+        if "values" in aspects or "layout" in aspects:
+            # the requested variables are not the last ones of the descriptor: the trailing records are still stepped over for every child cell
+            cases.append((cq, name, {"v1": (True, "d"), "v2": (False, "d"), "v3": (False, "d")}, L.DOMAIN_HEADER + L.VAR_BODY, {"twotondim": Poly.const(8), "nvar": Poly.const(3)}, True))
+            cases.append((cq, name, {"v1": (False, "d"), "v2": (True, "d"), "v3": (False, "d")}, L.DOMAIN_HEADER + L.VAR_BODY, {"twotondim": Poly.const(8), "nvar": Poly.const(3)}, True))
     if all_subsets:
         # thorough tier: EVERY selection of the six AMR variables and every selection of the variables of a mesh reader
         import itertools
@@ -667,7 +671,7 @@ def check_bodies(run, tree, aspects=("layout", "values", "skip"), all_subsets=Fa
         m = tree.method(tree.cls(cq), "read_variables")
         run.analysed(m)
         off = [k for k, (rd, _) in variables.items() if not rd]
-        construct = "%s::owner-block" % cq + ("[not selected: %s]" % ", ".join(off) if (cq == AMR or all_subsets) and off else "")
+        construct = "%s::owner-block" % cq + ("[not selected: %s]" % ", ".join(off) if (cq == AMR or all_subsets or off != ["v2"]) and off else "")
         try:
             try:
                 fold, ci, r, info, hooks, B, after_dh = run_block(tree, cq, variables, spec, subst, domain_header=True)
